@@ -66,6 +66,9 @@ class MaximumLengthSubItem(object):
         :return decoded maximum length sub-item
         """
         _, reserved, item_length, maximum_length_received = cls.item_format.unpack(stream.read(8))
+        if item_length != 0x0004:
+            # item has a fixed length; anything else can not be read (or sent back) correctly
+            raise ValueError('Invalid Maximum Length sub-item length: {0}'.format(item_length))
         return cls(reserved=reserved, item_length=item_length,
                    maximum_length_received=maximum_length_received)
 
@@ -248,6 +251,9 @@ class AsynchronousOperationsWindowSubItem(object):
         """
         _, reserved, item_length, max_num_ops_invoked, \
             max_num_ops_performed = cls.item_format.unpack(stream.read(8))
+        if item_length != 0x0004:
+            # item has a fixed length; anything else can not be read (or sent back) correctly
+            raise ValueError('Invalid Asynchronous Operations Window sub-item length: {0}'.format(item_length))
         return cls(reserved=reserved, item_length=item_length,
                    max_num_ops_invoked=max_num_ops_invoked,
                    max_num_ops_performed=max_num_ops_performed)
